@@ -162,12 +162,19 @@ def liveSets (sigma : List Nat) (generatable : Nat → Bool) (all : List (List R
     be reached by generatable nodes alone — every way to complete the content from there passes through a
     non-generatable node.  (The reading is global on purpose: in `(a a)* a img` every state *offers* the
     generatable `a`, yet no match can end without the `img`.) -/
-def hasDeadEnd? (sigma : List Nat) (generatable : Nat → Bool) (r : RE) : Option Bool :=
-  match reachSets sigma 200000 [[r]] [] with
+def hasDeadEndWith? (fuel : Nat) (sigma : List Nat) (generatable : Nat → Bool) (r : RE) : Option Bool :=
+  match reachSets sigma fuel [[r]] [] with
   | none => none                  -- too many derivative sets for the allowance: unknown
   | some all =>
     let live := liveSets sigma generatable all (all.length + 1) (all.filter RE.nullableSet)
     some (all.any (fun rs => !live.any (RE.sameSet · rs)))
+
+/-- … with the allowance of the driver.  Whenever it answers, the answer is the declarative `DeadEndSpec`
+    (`Proofs/SpecDeadEnd.lean: hasDeadEnd?_spec`); it answers for every expression with
+    `1 + 2 ^ (#partial derivatives + 1) * #sigma ≤ 200000` (`Proofs/SpecDeadEndFuel.lean`), and with the allowance
+    `reachFuel` for every expression. -/
+def hasDeadEnd? (sigma : List Nat) (generatable : Nat → Bool) (r : RE) : Option Bool :=
+  hasDeadEndWith? 200000 sigma generatable r
 
 def hasDeadEnd (sigma : List Nat) (generatable : Nat → Bool) (r : RE) : Bool :=
   (hasDeadEnd? sigma generatable r).getD false
